@@ -1,3 +1,4 @@
+import PlaybackProofs.Lex
 import PlaybackProofs.Cassette
 /-!
 # C07 — Stored recordings round-trip through every cassette
@@ -127,5 +128,16 @@ theorem C07_s3_metadata_key_counterexample (z : Zip) (hz : z.Lawful) (kp : Strin
     have hk : isReserved "_metadata" = false := by decide
     simp [PlaybackModel.Cassette.get, save, a, hz _, decodeToks_encToks, s3FullVal, Fields.set, canon, canonF, hk, Fields.insert,
       s3RecordingOfVal, Fields.pop]
+
+/-- **The stored TEXT carries exactly the stored tokens.**  The theorems above read blobs as token streams; what a cassette
+physically writes is their text (`render`).  Lexing that text character by character (`decodeText`: string escapes incl.
+surrogate pairs, numbers, punctuation) gives back precisely what the token-level decoder sees - for the in-memory / file
+object form, for the S3 full form and for the S3 metadata object alike.  Premise: float texts inside the recording are well
+formed `repr`s. -/
+theorem C07_stored_text_decodes (v : Val) (hf : ∀ t ∈ encToks v, t.WF) :
+    decodeText (encodeText v) = decodeToks (encToks v) :=
+  decodeText_eq_decodeToks v hf
+
+example : ∀ t ∈ encToks (recordingVal ⟨"Op/1", .cons "k" (.float "0.5") .nil, .cons "m" (.str "x\ny") .nil⟩), t.WF := by decide
 
 end Properties.C07
